@@ -20,7 +20,7 @@ const (
 	interval = time.Millisecond
 )
 
-var workloads = []string{"in-order", "loss", "duplicates", "reordering", "with-feedback", "loss-with-feedback", "retransmissions-lagging-ccfb", "many-streams"}
+var workloads = []string{"in-order", "loss", "duplicates", "reordering", "with-feedback", "loss-with-feedback", "retransmissions-lagging-ccfb", "many-streams", "stream-churn"}
 
 const manyStreams = 120 // further local and remote streams of the "many-streams" workload: memory may depend on their number, not on the packets
 
@@ -201,8 +201,59 @@ func runPair(p Pair) result { //nolint:cyclop,gocognit
 	withFeedback := p.Workload == "with-feedback" || p.Workload == "loss-with-feedback" || ccfb
 	lossy := p.Workload == "loss" || p.Workload == "loss-with-feedback"
 	sentTotal := int64(0)
+	churnSSRC := uint32(0x100000)
 	for ph := 0; ph < p.Phases; ph++ {
 		for i := 0; i < p.PerPhase; i++ {
+			if p.Workload == "stream-churn" && i%1000 == 0 {
+				// a batch of 100 short-lived pairs of streams with SSRCs never used before: bound together, 20 packets each way with a gap and
+				// feedback about them while report / NACK ticks run over all of them, then unbound one after the other while ticks go on.
+				// Memory may depend on the streams bound at the moment, not on how many have come and gone.
+				type churned struct {
+					li, ri *interceptor.StreamInfo
+					w      interceptor.RTPWriter
+					r      interceptor.RTPReader
+					src    *kit.ByteSource
+				}
+				batch := make([]*churned, 100)
+				for j := range batch {
+					churnSSRC += 2
+					c := &churned{li: kit.LocalInfo(churnSSRC, tw, true, true), ri: kit.RemoteInfo(churnSSRC+1, tw), src: &kit.ByteSource{}}
+					c.w, c.r = ic.BindLocalStream(c.li, rtpSink), ic.BindRemoteStream(c.ri, c.src)
+					batch[j] = c
+				}
+				for k := uint16(1); k <= 21; k++ {
+					if k == 7 {
+						continue
+					}
+					for _, c := range batch {
+						twOut++
+						twIn++
+						ho := kit.WithTWCC(rtp.Header{Version: 2, SSRC: c.li.SSRC, PayloadType: 96, SequenceNumber: k, Timestamp: uint32(k) * 90}, twccID, twOut)
+						_, _ = c.w.Write(&ho, payload, nil)
+						hi := kit.WithTWCC(rtp.Header{Version: 2, SSRC: c.ri.SSRC, PayloadType: 96, SequenceNumber: k, Timestamp: uint32(k) * 90}, twccID, twIn)
+						if n, err := (&rtp.Packet{Header: hi, Payload: payload[:20]}).MarshalTo(rawBuf); err == nil {
+							c.src.Push(rawBuf[:n])
+							_, _, _ = c.r.Read(buf, nil)
+						}
+						sentTotal++
+					}
+				}
+				for _, c := range batch {
+					if raw, err := rtcp.Marshal([]rtcp.Packet{
+						&rtcp.ReceiverReport{SSRC: 9, Reports: []rtcp.ReceptionReport{{SSRC: c.li.SSRC, LastSequenceNumber: 21}}},
+						&rtcp.SenderReport{SSRC: c.ri.SSRC, NTPTime: uint64(i) << 32, RTPTime: 1},
+						&rtcp.TransportLayerNack{SenderSSRC: 9, MediaSSRC: c.li.SSRC, Nacks: []rtcp.NackPair{{PacketID: 7}}},
+					}); err == nil {
+						rtcpSrc.Push(raw)
+						_, _, _ = rtcpIn.Read(buf, nil)
+					}
+				}
+				time.Sleep(2 * interval) // all of them live through a tick or two
+				for _, c := range batch {
+					ic.UnbindLocalStream(c.li)
+					ic.UnbindRemoteStream(c.ri)
+				}
+			}
 			seqOut++
 			seqIn++
 			roll := next() % 100
@@ -296,6 +347,12 @@ func knownFor(p Pair) string {
 	switch {
 	case p.Member == "rtpfb" && p.Workload != "with-feedback" && p.Workload != "loss-with-feedback" && p.Workload != "retransmissions-lagging-ccfb":
 		return "C12-rtpfb-history-without-feedback"
+	case p.Member == "rfc8888" && p.Workload == "stream-churn":
+		return "C12-rfc8888-state-survives-unbind"
+	case (p.Member == "cc-noop-pacer" || p.Member == "cc-leaky-bucket") && p.Workload == "stream-churn":
+		return "C12-cc-pacer-streams-kept-until-close"
+	case p.Member == "stats" && p.Workload == "stream-churn":
+		return "C12-stats-recorders-kept-until-close"
 	case p.Member == "jitterbuffer" && p.Workload == "many-streams":
 		return "C12-jitterbuffer-queue-grows-after-loss" // one buffer for all streams: every other stream's packet is a stale duplicate for it (DESIGN 8.2, observation d)
 	case p.Member == "jitterbuffer" && (p.Workload == "loss" || p.Workload == "loss-with-feedback" || p.Workload == "duplicates" || p.Workload == "reordering"):
@@ -321,7 +378,7 @@ func TestMemoryBounded(t *testing.T) {
 	phases, per := kit.EnvInt("VERIF_C12_PHASES", 4), kit.EnvInt("VERIF_C12_PER_PHASE", 15000)
 	shard, nshards := kit.Shard()
 	rec := kit.NewRecorder("C12", "memory-phases",
-		fmt.Sprintf("every interceptor x workload {in-order, 5%% loss, 5%% duplicates, reordering, with periodic feedback, loss with feedback, retransmissions with lagging RFC 8888 feedback, 121 streams each way}: %d equal phases of %d packets each way; heap and object "+
+		fmt.Sprintf("every interceptor x workload {in-order, 5%% loss, 5%% duplicates, reordering, with periodic feedback, loss with feedback, retransmissions with lagging RFC 8888 feedback, 121 streams each way, 100 short-lived stream pairs bound, used and unbound every 1000 packets}: %d equal phases of %d packets each way; heap and object "+
 			"count after two forced GCs at each phase boundary; growth over the last phases must stay below max(32 KiB, 0.5%%) / 200 objects, and the heap must return to the baseline after Unbind/Close; "+
 			"non-trivial = the interceptor keeps per-packet state; distinct by (interceptor, workload, seed)", phases, per))
 	idx := 0
